@@ -93,7 +93,8 @@ def main(argv=None):
     def on_result(idx, res):
         progress['done'] += 1
 
-    pool = core.Pool(prop, args.workers, timeout)
+    nworkers = min(args.workers, getattr(mod, 'WORKERS', args.workers))
+    pool = core.Pool(prop, nworkers, timeout)
     results = pool.map(plans, on_result=on_result, deadline=t_start + budget)
     wall_batch = time.time() - t_start
 
@@ -202,7 +203,7 @@ def main(argv=None):
                           for s in ('ok', 'hang', 'crash', 'harness_error')},
         'real_components': core.REAL_COMPONENTS,
         'stub_components': core.STUB_COMPONENTS,
-        'workers': args.workers,
+        'workers': nworkers,
         'exhaustive': False,
     }
     extra = getattr(mod, 'extra_coverage', None)
